@@ -119,6 +119,69 @@ func runDrem(arg string) string {
 	})
 }
 
+// rwTT is an io.ReadWriter that already has the whole TTransport method set (a kitex-style buffer):
+// NewDefaultTransport must still wrap it and report ReadableLen, not its own RemainingBytes.
+type rwTT struct {
+	bytes.Buffer
+	m uint64
+}
+
+func (r *rwTT) Close() error                { return nil }
+func (r *rwTT) Flush(context.Context) error { return nil }
+func (r *rwTT) Open() error                 { return nil }
+func (r *rwTT) IsOpen() bool                { return true }
+func (r *rwTT) RemainingBytes() uint64      { return r.m }
+
+type rwTTRL struct {
+	rwTT
+	n int
+}
+
+func (r *rwTTRL) ReadableLen() int { return r.n }
+
+var (
+	_ apache.TTransport = &rwTT{}
+	_ apache.TTransport = &rwTTRL{}
+)
+
+func runDtr(arg, ms string) string {
+	return lib.Guard(func() string {
+		m, err := strconv.ParseUint(ms, 10, 64)
+		if err != nil {
+			return "bad-op"
+		}
+		var rw io.ReadWriter
+		if arg == "none" {
+			rw = &rwTT{m: m}
+		} else {
+			n, err := strconv.ParseInt(arg, 10, 64)
+			if err != nil {
+				return "bad-op"
+			}
+			rw = &rwTTRL{rwTT: rwTT{m: m}, n: int(n)}
+		}
+		t := apache.NewDefaultTransport(rw)
+		return fmt.Sprintf("rem=%d wrapped=%v", t.RemainingBytes(), interface{}(t) != interface{}(rw))
+	})
+}
+
+func runDbt(initHex, wHex string) string {
+	return lib.Guard(func() string {
+		b := bytes.NewBuffer(append([]byte(nil), lib.UnHex(initHex)...))
+		inner := apache.NewBufferTransport(b)
+		rw, ok := inner.(io.ReadWriter)
+		if !ok {
+			return "bad-op"
+		}
+		t := apache.NewDefaultTransport(rw)
+		if _, err := t.Write(lib.UnHex(wHex)); err != nil {
+			return "write-error"
+		}
+		return fmt.Sprintf("rem=%d inner=%d len=%d wrapped=%v", t.RemainingBytes(), inner.RemainingBytes(), b.Len(),
+			interface{}(t) != interface{}(inner))
+	})
+}
+
 // ---------------------------------------------------------------- callbacks
 
 type cbErr struct{ k int }
@@ -285,6 +348,10 @@ func runOp(f []string) (string, bool) {
 		return runSeq(f[2], f[3], f[4]), true
 	case f[1] == "drem" && len(f) == 3:
 		return runDrem(f[2]), true
+	case f[1] == "dtr" && len(f) == 4:
+		return runDtr(f[2], f[3]), true
+	case f[1] == "dbt" && len(f) == 4:
+		return runDbt(f[2], f[3]), true
 	case f[1] == "never" && len(f) == 2:
 		return runNever(), true
 	case f[1] == "cb" && len(f) == 4:
@@ -428,6 +495,33 @@ func genCases(o *lib.Opts) {
 			em.Count("drem:zero")
 		default:
 			em.Count("drem:neg")
+		}
+	}
+	// 3b. wrapped objects that are TTransports themselves (own RemainingBytes = m, ReadableLen = n or absent)
+	ms := []uint64{0, 1, 5, 1 << 40, math.MaxUint64}
+	for _, m := range ms {
+		emit("apx", "dtr", "none", strconv.FormatUint(m, 10))
+		em.Count("dtr:no-readablelen")
+		for _, v := range []int64{0, -1, 1, 2, 7, math.MinInt64, math.MaxInt64, 1 << 32} {
+			emit("apx", "dtr", strconv.FormatInt(v, 10), strconv.FormatUint(m, 10))
+			if v > 0 && uint64(v) == m {
+				em.Count("dtr:own=readablelen")
+			} else {
+				em.Count("dtr:own!=readablelen")
+			}
+		}
+	}
+	for i := 0; i < 200; i++ {
+		v := int64(r.U64()) >> uint(r.Intn(63))
+		m := r.U64() >> uint(r.Intn(64))
+		emit("apx", "dtr", strconv.FormatInt(v, 10), strconv.FormatUint(m, 10))
+		em.Count("dtr:random")
+	}
+	// 3c. a buffer transport handed back to NewDefaultTransport: wrapped, no ReadableLen => unknown
+	for _, sz := range []int{0, 1, 3, 64, 65, 4096} {
+		for _, wsz := range []int{0, 1, 2, 100} {
+			emit("apx", "dbt", lib.Hex(r.Bytes(sz)), lib.Hex(r.Bytes(wsz)))
+			em.Count("dbt")
 		}
 	}
 	// 4. callbacks: every registered/unregistered combination, each entry point
